@@ -11,6 +11,9 @@ def reset():
 def _make_call(n):
     def call(*args, **kwargs):
         LOG.append(('call', n, args, dict(kwargs), [id(a) for a in args] + [id(v) for v in kwargs.values()]))
+        for v in list(args) + list(kwargs.values()):
+            if callable(v) and getattr(v, '__name__', '') == '<lambda>':
+                v()         # a target that runs the callables it is given (their free names are resolved only now)
         return {'called': n, 'args': list(args), 'kw': dict(kwargs)}
     call.__name__ = f'call_{n}'
     call.__qualname__ = f'call_{n}'
